@@ -105,6 +105,10 @@ func (t *task) memEnumerate(bg *isaspec.State, probe bool) {
 		if span < 4 {
 			pats = append(pats, patt{base: al, stride: stride}, patt{base: 3 * al, stride: 4})
 		}
+		if m.Mul == 0 && ldsSize >= 64*stride+maxOff {
+			// the last access ends exactly at the end of the LDS allocation
+			pats = append(pats, patt{base: ldsSize - 64*stride - maxOff, stride: stride})
+		}
 		if m.Mul != 0 {
 			// write2/read2: the two accesses of different lanes must not collide: lanes far apart
 			pats = nil
@@ -196,6 +200,8 @@ func (t *task) memEnumerate(bg *isaspec.State, probe bool) {
 		if span < 4 {
 			pats = append(pats, patt{vaBase + isaspec.PageSize - 3, span, false}, patt{vaBase + 5, 3 * span, true})
 		}
+		// the last access ends exactly at the end of the mapped window (over-reads fault)
+		pats = append(pats, patt{vaEnd - 64*span, span, false})
 		for pi, p := range pats {
 			if p.t0+63*p.stride+span > vaEnd {
 				continue
